@@ -21,7 +21,7 @@ ASSUMPTIONS = [
     "dask.base.tokenize is injective on the tuple returned by __dask_tokenize__ (tokens compared as tuples, element-wise)",
     "hash is a function of the value hashed: equal numbers hash equal, tuples hash by components (structural comparison of the hashed structure)",
     "CRS fields range over real pyproj-backed CRS objects from {None, EPSG:4326, EPSG:3857, EPSG:32633} chosen by symbolic flags",
-    "pickling, the equivalence of CRS construction routes and the CRS cache / transformer-cache histories (pyproj object identity, id() reuse, garbage collection) have no SMT encoding here and are outside the claim",
+    "E1-E3: CRS fields are real objects; E4/E5/E8: CRS logic over an abstract projection library (equality class, code-lookup answer, string identity) under consistency axioms, replayed by a witness search over real specifications; E6: clone by the __reduce_ex__ protocol; E7: one step of the address-keyed transformer cache on an abstract heap. Outside: that pyproj equates what it should, long GC histories, Geometry pickling (shapely/GeoJSON)",
     "floats as exact reals (NaN fields are outside the claim)",
 ]
 
